@@ -420,6 +420,42 @@ def part_loader_source(H):
                 'ExceptionInfo.from_exc_info', 'harness self-check: the reference found the loader source', witness, repr(std))
 
 
+def part_pseudo_files(H):
+    """code compiled under a pseudo file name such as <cell-3> whose source was registered in linecache.cache (the IPython /
+    doctest / attrs pattern): the traceback module shows the source lines, so must boltons"""
+    import linecache
+    src = 'def inner(x):\n    return 1 // x  # pseudo-file source\n\ndef outer(x):\n    return inner(x) + 1\n'
+    for fname in ('<verif-cell-1>', '<doctest c16[0]>', '<generated by verif>'):
+        ns = {'__name__': 'c16_pseudo'}
+        exec(compile(src, fname, 'exec'), ns)
+        linecache.cache[fname] = (len(src), None, src.splitlines(True), fname)
+        try:
+            ns['outer'](0)
+        except ZeroDivisionError:
+            et, ev, tb = sys.exc_info()
+        witness = 'code compiled as %r with its source registered in linecache.cache' % fname
+        wc = 'pseudo file name <...> whose source lives in linecache only'
+        H.ev(key=('pseudo', fname), nontrivial=True, part='live_pseudo_files', sample=witness)
+        ok, ei = H.guard(lambda: tbutils.ExceptionInfo.from_exc_info(et, ev, tb), 'frames_equal_traceback_module',
+                         'ExceptionInfo.from_exc_info', wc + '; raises', witness)
+        if not ok:
+            continue
+        ok1, fr = H.guard(lambda: [(c.module_path, c.lineno, c.func_name, str(c.line).strip()) for c in ei.tb_info.frames],
+                          'frames_equal_traceback_module', 'ExceptionInfo.from_exc_info', wc + '; reading frames raises', witness)
+        ok2, txt = H.guard(lambda: ei.get_formatted(), 'formatted_equals_interpreter', 'ExceptionInfo.get_formatted', wc + '; raises', witness)
+        std = [(f.filename, f.lineno, f.name, (f.line or '').strip()) for f in traceback.extract_tb(tb)]
+        if ok1:
+            H.check(fr == std, 'frames_equal_traceback_module', 'ExceptionInfo.from_exc_info', wc, witness,
+                    'frames %r, traceback.extract_tb %r' % (fr, std))
+        if ok2:
+            want = strip_markers(''.join(traceback.format_exception(et, ev, tb)))
+            H.check(txt.rstrip('\n') == want.rstrip('\n'), 'formatted_equals_interpreter', 'ExceptionInfo.get_formatted', wc, witness,
+                    'got %r, interpreter %r' % (txt, want))
+        H.check(any('pseudo-file source' in f[3] for f in std), 'frames_equal_traceback_module', 'ExceptionInfo.from_exc_info',
+                'harness self-check: the reference found the registered source', witness, repr(std))
+        linecache.cache.pop(fname, None)
+
+
 def run():
     H = Harness('C16',
                 rule='one evaluation = one rendered traceback text through from_string/to_string (non-trivial: at least one frame '
@@ -428,7 +464,7 @@ def run():
                                   '4 (path, function) x 3 kinds; 2 type names x 5 messages; also with a trailing newline for <= 1 frame; '
                                   '1..2 frames over extended source lines/paths.  live: all chains of depth 1..4 over {function, lambda, '
                                   'method, generator, exec} x 3 raisers (2 at depth 4) x 6 exception kinds; recursion 2,3,5,8 deep; a module edited and reloaded 3 times; code whose source '
-                                  'is reachable only through the namespace loader (3 namespace kinds)',
+                                  'is reachable only through the namespace loader (3 namespace kinds) or registered in linecache under a pseudo file name <...> (3 names)',
                             thorough='texts: 0..3 frames over the full 36-variant frame alphabet x 2 types x 8 messages, each also with trailing '
                                      'newline; live: depth 1..5, 3 raisers'))
     tmp = tempfile.mkdtemp(prefix='c16 \xfc-')
@@ -437,6 +473,7 @@ def run():
             part_live(H, tmp)
             part_edited_source(H, tmp)
             part_loader_source(H)
+            part_pseudo_files(H)
         if H.args.part in (None, 'texts'):
             part_texts(H)
     finally:
